@@ -55,6 +55,34 @@ PAR = int(os.environ.get("VP_C15_PAR", "6"))
 
 
 # ------------------------------------------------------------------ running children
+PRE_HEADER = "p:x,objective,job_id,job_status,m:timestamp_submit,m:timestamp_gather"
+
+
+def pre_files(scen):
+    """scen["pre"] = {file name: [uids]} -> {file name: text}; a name that is not *.csv gets garbage (a stale temporary file)."""
+    out = {}
+    for fn, uids in (scen.get("pre") or {}).items():
+        if fn.endswith(".csv"):
+            out[fn] = "\r\n".join([PRE_HEADER] + ["1.5,%d.0,%d,DONE,0.1,0.2" % (u, i) for i, u in enumerate(uids)]) + "\r\n"
+        else:
+            out[fn] = "p:x,objective\r\n0.5,"
+    return out
+
+
+def pre_ops(scen, names):
+    """The same files as operations of an earlier process, in front of the recorded trace (the oracle replays from an empty directory)."""
+    ops, uids, stale = [], [], []
+    tmp = names.tok("results.csv.tmp")
+    for fn, us in (scen.get("pre") or {}).items():
+        f = names.tok(fn)
+        if fn.endswith(".csv"):          # appears at once (written somewhere else, then moved in)
+            ops += [[0, tmp], [2, tmp, [[0, 6]] + [[1, u, 6] for u in us]], [3, tmp], [4, tmp, f]]
+            uids += us
+        else:
+            stale = [[0, f], [2, f, [[0, 2], [1, -1, 2]]], [3, f]]
+    return ops + stale, uids
+
+
 def read_dir(log_dir):
     out = {}
     for fn in sorted(os.listdir(log_dir)):
@@ -71,9 +99,13 @@ def run_children(scen, base, ks, tag="", extra=None):
     jobs = []
     for k in ks:
         log_dir, side = os.path.join(base, "log%d" % k), os.path.join(base, "side%s%d" % (tag, k))
-        os.makedirs(log_dir, exist_ok=True)
+        if not os.path.isdir(log_dir):
+            os.makedirs(log_dir)
+            for fn, text in pre_files(scen).items():      # what earlier runs left in the directory
+                with open(os.path.join(log_dir, fn), "w", newline="") as f:
+                    f.write(text)
         os.makedirs(side)
-        jobs.append([k if extra is None else 0, log_dir, side] + ([extra(k)] if extra is not None else []))
+        jobs.append([k if extra is None else extra(k)["restart"].get("kill", 0), log_dir, side] + ([extra(k)] if extra is not None else []))
     p = subprocess.run([sys.executable, CHILD, json.dumps(scen), str(PAR)], input=json.dumps(jobs), env=dict(os.environ),
                        stdout=subprocess.PIPE, stderr=subprocess.PIPE, text=True, timeout=800)
     if p.returncode != 0:
@@ -276,11 +308,15 @@ def check_in(case, scen, m, res, base):
     if raised:
         return dict(res, ok=False, clause="search_raised:" + raised[0]["exc"], detail=raised[0])
     names = Names()
-    T = abstract_ops(full["ops"], names)
-    N = len(T)
-    finished = [u for u, _ in full["finished"]]
+    P, pre_uids = pre_ops(scen, names)           # files of earlier runs, as operations in front of the recorded trace
+    T_obs = abstract_ops(full["ops"], names)
+    T = P + T_obs
+    N = len(T_obs)
+    finished = pre_uids + [u for u, _ in full["finished"]]
     res["desc"].append("ops=%d" % (N // 10 * 10))
     res["sig"].update(searches=nsearch if nsearch < 2 else 2)
+    if scen.get("pre"):
+        res["desc"].append("older_files=%d" % len(scen["pre"]))
     # ---- 2. the oracle on the whole trace: every crash point, in the verified file-system model
     focus = case.get("focus", "files")
     res["desc"].append("focus=" + focus)
@@ -296,14 +332,14 @@ def check_in(case, scen, m, res, base):
             clause = "zero_byte_file"
         else:
             clause = "malformed_file"
-        viol = dict(res, ok=False, clause=clause, detail=dict(crash_point=k, op=op, files_after=sorted(files.items()), trace=T[:k + 2], finished=finished))
+        viol = dict(res, ok=False, clause=clause, detail=dict(crash_point=k - len(P), op=op, files_after=sorted(files.items()), trace=T[:k + 2], finished=finished))
         viol["sig"] = dict(res["sig"], clause=clause)
     # ---- 3. the code against the model of the code
     try:
-        acts = actions_of(full, scen, names, T)
+        acts = actions_of(full, scen, names, T_obs)
     except ValueError as e:
         return dict(res, ok=False, kind="corr", clause="batching", detail=str(e))
-    canon = merge_writes(T)
+    canon = merge_writes(T_obs)
     variant = None
     for v, nm in ((1, "fixed"), (0, "today")):
         if merge_writes(m.call(F_TRACE, [v, acts])) == canon:
@@ -322,16 +358,17 @@ def check_in(case, scen, m, res, base):
             if r["rc"] != 77:
                 return dict(res, ok=False, kind="corr", clause="crash_not_reached", detail=dict(k=k, rc=r["rc"], err=r["err"], ops=len(r["ops"])))
             nm = Names()                 # tokens by order of appearance: the real-clock names differ between processes
+            Pk, _ = pre_ops(scen, nm)
             try:
                 Tk = abstract_ops(r["ops"], nm)
             except ValueError as e:
                 return dict(res, ok=False, kind="corr", clause="partial_line", detail=str(e))
-            if shape(Tk) != shape(T[:k]):
-                return dict(res, ok=False, kind="corr", clause="not_deterministic", detail=dict(k=k, crashed=Tk[-3:], full=T[max(0, k - 3):k]))
+            if shape(Tk) != shape(T_obs[:k]):
+                return dict(res, ok=False, kind="corr", clause="not_deterministic", detail=dict(k=k, crashed=Tk[-3:], full=T_obs[max(0, k - 3):k]))
             surv = abstract_files(r["survivors"], nm)
             # the file-system model against the OS, on the operations THIS process completed
-            pred = sorted([f, c] for f, c in m.call(F_CRASH, [Tk, k]))
-            fin_k = [u for u, _ in r["finished"]]
+            pred = sorted([f, c] for f, c in m.call(F_CRASH, [Pk + Tk, len(Pk) + k]))
+            fin_k = pre_uids + [u for u, _ in r["finished"]]
             okk = m.call(F_OKSURV, [fin_k, surv])
             if not okk and viol is None:
                 return dict(res, ok=False, clause="survivor_not_wellformed", detail=dict(k=k, survivors=r["survivors"], finished=fin_k))
@@ -344,25 +381,55 @@ def check_in(case, scen, m, res, base):
                     return dict(res, ok=False, clause="fit_surrogate:" + err[0], detail=dict(k=k, error=err[1], survivor=r["survivors"].get("results.csv")))
             befores[k] = (nm, surv, fin_k)
         if viol is None:
-            # a new search (CBO-DUMMY for even k, RandomSearch for odd k) is created and run in every surviving directory
-            spec = lambda k: dict(restart=dict(kind="cbo" if k % 2 == 0 else "random", n=2 + k % 2, multi=multi0))
-            reruns = run_children(scen, base, jobs, tag="r", extra=spec)
+            # RESTART: a new search (CBO-DUMMY for even k, RandomSearch for odd k) is created and run in every surviving
+            # directory; two crash points out of three it is KILLED again (second kill, at its operation `kill`); then a
+            # further new search is created and run to its end in what is left
+            def spec2(k):
+                return dict(restart=dict(kind="cbo" if k % 2 == 0 else "random", n=2 + k % 2, multi=multi0, base=9000,
+                                         kill=0 if k % 3 == 0 else 1 + (k * 7) % 9))
+
+            def spec3(k):
+                return dict(restart=dict(kind="random" if k % 2 == 0 else "cbo", n=2, multi=multi0, base=9500, kill=0))
+
+            def failed(k, r2, spec, before, stage):
+                detail = dict(k=k, stage=stage, restart=spec["restart"], before=before, after=r2["survivors"], actions=r2["actions"][-3:], err=r2["err"])
+                rz = [a for a in r2["actions"] if a["act"] == "raised"]
+                if r2["rc"] not in (0, 77) or rz:
+                    out = dict(res, ok=False, clause="restart_raised:" + (rz[0]["exc"] if rz else "child_failed"), detail=detail)
+                    out["sig"] = dict(res["sig"], clause="restart_raised")
+                    return out, detail
+                return None, detail
+
+            reruns = run_children(scen, base, jobs, tag="r", extra=spec2)
+            state2 = {}
             for k in jobs:
                 r2 = reruns[k]
                 nm, surv, fin_k = befores[k]
-                detail = dict(k=k, restart=spec(k)["restart"], before=runs[k]["survivors"], after=r2["survivors"], actions=r2["actions"][-3:], err=r2["err"])
-                rz = [a for a in r2["actions"] if a["act"] == "raised"]
-                if r2["rc"] != 0 or rz:
-                    exc = rz[0]["exc"] if rz else "child_failed"
-                    out = dict(res, ok=False, clause="restart_raised:" + exc, detail=detail)
-                    out["sig"] = dict(res["sig"], clause="restart_raised")
-                    return out
+                bad, detail = failed(k, r2, spec2(k), runs[k]["survivors"], "restart")
+                if bad:
+                    return bad
                 after = abstract_files(r2["survivors"], nm)
                 newfin = [u for u, _ in r2["finished"]]
                 okr, cl = m.call(F_OKRESTART, [fin_k, newfin, surv, after])
+                # a restart that was killed itself: only "every file well formed" and "nothing lost" are due
+                if (r2["rc"] == 0 and not okr) or (r2["rc"] == 77 and cl in (1, 2)):
+                    return dict(res, ok=False, clause=RESTART_CLAUSES.get(cl, "restart:?") + ("" if r2["rc"] == 0 else ":second_kill"), detail=detail)
+                state2[k] = (after, fin_k + newfin)
+            reruns3 = run_children(scen, base, jobs, tag="s", extra=spec3)
+            for k in jobs:
+                r3 = reruns3[k]
+                nm = befores[k][0]
+                before3, fin3 = state2[k]
+                bad, detail = failed(k, r3, spec3(k), reruns[k]["survivors"], "restart_after_restart")
+                if bad:
+                    return bad
+                after3 = abstract_files(r3["survivors"], nm)
+                newfin3 = [u for u, _ in r3["finished"]]
+                okr, cl = m.call(F_OKRESTART, [fin3, newfin3, before3, after3])
                 if not okr:
-                    return dict(res, ok=False, clause=RESTART_CLAUSES.get(cl, "restart:?"), detail=detail)
+                    return dict(res, ok=False, clause=RESTART_CLAUSES.get(cl, "restart:?") + ":after_restart", detail=detail)
             res["desc"].append("restarts=%d" % (len(jobs) // 10 * 10))
+            res["desc"].append("second_kills=%d" % (sum(1 for k in jobs if reruns[k]["rc"] == 77) // 5 * 5))
     if viol is not None:
         return viol
     if variant is None:
@@ -406,6 +473,11 @@ def gen(rng, tier):
         S(searches=[dict(workers=2, calls=[2, 2], multi=True)]),
         S(searches=[dict(workers=1, calls=[3, 1], fails=[True, True, False, False])]),
         S(searches=[dict(workers=1, calls=[2]), dict(workers=1, calls=[2]), dict(workers=1, calls=[2])], same_second=True),
+        # a directory that earlier runs left behind: older results files (two of them under the names the rename tries
+        # first within this second), a stale temporary file; two searches
+        S(searches=[dict(workers=1, calls=[2]), dict(workers=2, calls=[1, 1], multi=True)], same_second=True,
+          pre={"results_20260101-000000.csv": [7001, 7002], "results_20260101-000000_1.csv": [7003], "results_20250101-120000.csv": [7004],
+               "results.csv.tmp": []}),
     ]
     if tier == "search":
         for i in range(6):
